@@ -7,52 +7,23 @@ Local Open Scope Z_scope.
 
 (* ------------------------------------------------------------------ refuted regions (witnesses) *)
 Definition b16 : list N := map N.of_nat (seq 16 16).
-Definition st_f11 : state := mkSt [mkBuf b16 false] [mkView 0 0 8 Uint8] [].
-Definition num (z : Z) : iarg := mkI (to_bits (of_Z z)) None.
-Definition op_f11 : op := OCopyWithin 0 (num 6) (num 0) (Some (num 8)).
-
-(* Uint8Array(buf,0,8).copyWithin(6,0,8) on a 16-byte buffer: goja's arithmetic writes 8 bytes at 6,
-   i.e. bytes 8..13 outside the view; the specification's writes 2 bytes *)
-Lemma copyWithin_touched_refuted :
-  let '(st', _, t) := step MI st_f11 op_f11 in
-  forallb (touch_ok (allowed st_f11 op_f11)) t = false /\
-  In (mkT 0 6 8 true) t /\
-  (forall i, (8 <= i < 14)%nat -> nth_error (b_bytes (nth 0 (bufs st') (mkBuf [] true))) i <> nth_error b16 i) /\
-  forallb (touch_ok (allowed st_f11 op_f11)) (snd (step MS st_f11 op_f11)) = true.
-Proof.
-  vm_compute. repeat split; auto.
-  intros i [H1 H2].
-  do 8 (destruct i as [|i]; [lia|]).
-  do 6 (destruct i as [|i]; [discriminate|]). lia.
-Qed.
-
-Definition st_n1 : state := mkSt [mkBuf b16 false] [mkView 0 0 8 Uint8] [].
+Definition num (z : Z) (d : option nat) : iarg := mkI (to_bits (of_Z z)) d.
 Definition vnum (z : Z) (d : option nat) : varg := mkV false (to_bits (of_Z z)) d.
-Definition op_n1 : op := OSetArr 0 [vnum 1 None; vnum 77 (Some 0%nat); vnum 3 None] (num 0).
 
-(* u8.set([1, {valueOf(){detach(); return 77}}, 3]): goja's order stores 77 into the detached memory *)
-Lemma set_arraylike_touched_refuted :
-  let '(st', _, t) := step MI st_n1 op_n1 in
-  In (mkT 0 1 1 false) t /\ forallb (touch_ok (allowed st_n1 op_n1)) t = false /\
-  nth_error (b_bytes (nth 0 (bufs st') (mkBuf [] true))) 1 = Some 77%N /\
-  let '(st2, _, t2) := step MS st_n1 op_n1 in
-  forallb (touch_ok (allowed st_n1 op_n1)) t2 = true /\
-  nth_error (b_bytes (nth 0 (bufs st2) (mkBuf [] true))) 1 = Some 17%N.
-Proof. vm_compute. repeat split; auto. Qed.
+(* C17-N8: new BigInt64Array(buf,0,2).fill(1, {valueOf(){detach(); return 0}}): both readings end in a
+   TypeError, but in goja's order of coercions the buffer has been detached before *)
+Definition st_n8 : state := mkSt [mkBuf b16 false] [mkView 0 0 2 BigInt64] [].
+Definition op_n8 : op := OFill 0 (vnum 1 None) (Some (num 0 (Some 0%nat))) None.
+Lemma fill_order_refuted :
+  snd (fst (step MS st_n8 op_n8)) = RErr TypeError /\ snd (fst (step MI st_n8 op_n8)) = RErr TypeError /\
+  is_det (fst (fst (step MS st_n8 op_n8))) 0%nat = false /\ is_det (fst (fst (step MI st_n8 op_n8))) 0%nat = true.
+Proof. vm_compute. repeat split; reflexivity. Qed.
 
-(* F10 seen through typed arrays: Int16 element <- 2^63 + 2048 *)
-Lemma int_conv_refuted :
-  raw_bits MI Int16 (PNum (of_Z (2 ^ 63 + 2048))) = Some 0 /\
-  raw_bits MS Int16 (PNum (of_Z (2 ^ 63 + 2048))) = Some 2048.
+(* C17-N9: new BigInt64Array(buf,0,2)[1.5] = 1 *)
+Lemma nonindex_key_refuted :
+  snd (fst (step MS st_n8 (OSet 0 KNonInt (vnum 1 None)))) = RErr TypeError /\
+  snd (fst (step MI st_n8 (OSet 0 KNonInt (vnum 1 None)))) = RUndef.
 Proof. vm_compute. split; reflexivity. Qed.
-
-(* BigInt64Array.prototype.fill(-1n) *)
-Lemma bigint64_fill_refuted :
-  let st := mkSt [mkBuf b16 false] [mkView 0 0 2 BigInt64] [] in
-  let o := OFill 0 (mkV true (-1) None) None None in
-  b_bytes (nth 0 (bufs (fst (fst (step MI st o)))) (mkBuf [] true)) <>
-  b_bytes (nth 0 (bufs (fst (fst (step MS st o)))) (mkBuf [] true)).
-Proof. vm_compute. discriminate. Qed.
 
 (* ------------------------------------------------------------------ little-endian codec *)
 Lemma le_val_le_bytes : forall n z, le_val (le_bytes n z) = z mod 2 ^ (8 * Z.of_nat n).
